@@ -149,6 +149,21 @@ impl Builder for SvgBuilder {
     }
 }
 
+/// Escapes a string so it can be used as a double-quoted XML attribute value
+fn escape_attribute(value: &str) -> String {
+    let mut out = String::with_capacity(value.len());
+    for c in value.chars() {
+        match c {
+            '&' => out.push_str("&amp;"),
+            '<' => out.push_str("&lt;"),
+            '>' => out.push_str("&gt;"),
+            '"' => out.push_str("&quot;"),
+            _ => out.push(c),
+        }
+    }
+    out
+}
+
 impl SvgBuilder {
     fn image_placement(image_background_shape: ImageBackgroundShape, n: usize) -> (f64, f64) {
         use ImageBackgroundShape::{Circle, RoundedSquare, Square};
@@ -247,7 +262,7 @@ impl SvgBuilder {
             placed_coord.0 + (border_size - image_size) / 2f64,
             placed_coord.1 + (border_size - image_size) / 2f64,
             image_size,
-            image
+            escape_attribute(image)
         ));
 
         out
